@@ -11,4 +11,8 @@ import PV.Proofs.AlgoDivmod
                              correctness), agreement of the literal mirrors (`…Py`) with the
                              repaired definitions
   * `PV.Proofs.AlgoDivmod` : fuel sufficiency (termination) of `divmod`
+  * `PV.Proofs.AlgoFft`    : the arithmetic of `fft` = DFT over every commutative ring, `ifft`
+                             inverts it (principal roots), necessity of that hypothesis
+  * `PV.Proofs.AlgoFftMod` : (imported by `PV.Properties.C19Fft` only) naturality of the `fft` model, the driver's `Z_p` instance = DFT mod p,
+                             primitive roots in domains are principal
 -/
